@@ -1,6 +1,7 @@
 import Driver.Common
 import SSV.Model.PortSet
 import SSV.Model.DomainSet
+import SSV.Model.PrefixSet
 open SSV
 
 /-! Line-protocol driver for C10: engines `portset`, `domainset`, `prefixset` (see harness/cmd/corr_c10). -/
@@ -139,7 +140,7 @@ def step (st : St) (line : String) : St × String :=
     | _, _ => (st, "bad-op")
   | ["plines", h] =>
     match ofHex? h with
-    | some t => (st, hexList ((DomainSet.nonEmptyLines t).filter (fun l => l.head? != some DomainSet.hash)))
+    | some t => (st, hexList (PrefixSet.prefixLines t))
     | none => (st, "bad-op")
   | ["lines", h] =>
     match ofHex? h with
